@@ -39,6 +39,66 @@ def model_ty(cls_id):
     return {"t": "model", "cls": cls_id, "inst": 0}
 
 
+# ---- generic classes -------------------------------------------------------------------------------------------------
+# A generic class carries "tvars": n (declared `Generic[T0, ..., T(n-1)]` in this order) and "targs": the n actual
+# arguments of its one instantiation in the case (closed types). A field whose annotation mentions type variables
+# carries "hint": a type term that may contain {"t": "var", "i": k} and references {"t": "model", "cls": c,
+# "inst": 0, "args": [hint, ...]} to other generic classes; its "ty" is the hint with the arguments substituted -
+# computed HERE, by the harness, never taken from adaptix.
+
+def var(i):
+    return {"t": "var", "i": i}
+
+
+def subst(hint, targs):
+    """simultaneous substitution of the actual arguments for the type variables of a hint"""
+    t = hint["t"]
+    if t == "var":
+        return targs[hint["i"]]
+    if t in ("opt", "iter"):
+        return {**hint, "a": subst(hint["a"], targs)}
+    if t == "dict":
+        return {**hint, "k": subst(hint["k"], targs), "v": subst(hint["v"], targs)}
+    if t == "model" and "args" in hint:
+        return {"t": "model", "cls": hint["cls"], "inst": hint.get("inst", 0)}
+    return hint
+
+
+def hint_vars(hint):
+    """type variables of a hint in order of first appearance (what `__parameters__` of the annotation is)"""
+    out = []
+
+    def walk(h):
+        t = h["t"]
+        if t == "var":
+            if h["i"] not in out:
+                out.append(h["i"])
+        elif t in ("opt", "iter"):
+            walk(h["a"])
+        elif t == "dict":
+            walk(h["k"])
+            walk(h["v"])
+        elif t == "model":
+            for a in h.get("args", ()):
+                walk(a)
+    walk(hint)
+    return out
+
+
+def model_refs(hint):
+    """(class id, argument hints) of every reference to a generic class inside a hint"""
+    t = hint["t"]
+    if t in ("opt", "iter"):
+        yield from model_refs(hint["a"])
+    elif t == "dict":
+        yield from model_refs(hint["k"])
+        yield from model_refs(hint["v"])
+    elif t == "model" and "args" in hint:
+        yield hint["cls"], hint["args"]
+        for a in hint["args"]:
+            yield from model_refs(a)
+
+
 class App:
     """Result of an uninterpreted user function: compared structurally."""
     __slots__ = ("f", "pos", "kw")
@@ -91,7 +151,23 @@ class Universe:
 
     def __init__(self, classes):
         classes = [dict(c) for c in classes]
+        by_id = {c["id"]: c for c in classes}
         for c in classes:
+            if c.get("tvars"):
+                # the harness's own substitution fixes the type of every field declared through type variables
+                fields = []
+                for f in c["fields"]:
+                    if f.get("hint") is not None:
+                        f = dict(f)
+                        ty = subst(f["hint"], c["targs"])
+                        if f.get("ty") not in (None, ty):
+                            raise ValueError(f"field {f['id']} of class {c['id']}: type does not match its hint")
+                        f["ty"] = ty
+                        for cid, args in model_refs(f["hint"]):
+                            if [subst(a, c["targs"]) for a in args] != by_id[cid]["targs"]:
+                                raise ValueError(f"class {cid} is referenced with arguments other than its own")
+                    fields.append(f)
+                c["fields"] = fields
             if c["kind"] == "typeddict":     # get_typed_dict_shape sorts the fields by key
                 c["fields"] = sorted(c["fields"], key=lambda f: f["id"])
         self.logical = {c["id"]: c for c in classes}
@@ -102,6 +178,8 @@ class Universe:
             "TypedDict": typing.TypedDict, "NotRequired": typing.NotRequired, "Generic": typing.Generic,
             "T": typing.TypeVar("T"),
         }
+        self.tvars = [typing.TypeVar(f"T{i}") for i in range(4)]
+        self.ns.update({f"T{i}": tv for i, tv in enumerate(self.tvars)})
         import dataclasses
 
         import attrs
@@ -121,6 +199,8 @@ class Universe:
             real = self.real[ty["cls"]]
             if c.get("generic") is not None:
                 return real[LEAF_PY[c["generic"]]]
+            if c.get("tvars"):
+                return real[tuple(self.py_type(a) for a in c["targs"])]
             return real
         if t == "opt":
             return typing.Optional[self.py_type(ty["a"])]
@@ -133,6 +213,24 @@ class Universe:
             return typing.Dict[self.py_type(ty["k"]), self.py_type(ty["v"])]
         raise ValueError(t)
 
+    def py_hint(self, hint):
+        """the annotation object of a hint: type variables stay type variables"""
+        t = hint["t"]
+        if t == "var":
+            return self.tvars[hint["i"]]
+        if t == "model" and "args" in hint:
+            return self.real[hint["cls"]][tuple(self.py_hint(a) for a in hint["args"])]
+        if t == "opt":
+            return typing.Optional[self.py_hint(hint["a"])]
+        if t == "iter":
+            arg = self.py_hint(hint["a"])
+            if hint["o"] == "tuple":
+                return typing.Tuple[arg, ...]
+            return ITER_PY[hint["o"]][0][arg]
+        if t == "dict":
+            return typing.Dict[self.py_hint(hint["k"]), self.py_hint(hint["v"])]
+        return self.py_type(hint)
+
     def _const(self, value):
         self.consts.append(value)
         name = f"_c{len(self.consts) - 1}"
@@ -144,7 +242,7 @@ class Universe:
         if c.get("generic") is not None and f.get("tvar"):
             return "T"
         name = f"_t{len(self.ns)}"
-        tp = self.py_type(f["ty"])
+        tp = self.py_hint(f["hint"]) if c.get("tvars") and f.get("hint") is not None else self.py_type(f["ty"])
         if f.get("annotated") is not None:
             # a type hint tag: transparent for the linking rules and for the model (shapes carry the bare type)
             tp = typing.Annotated[tp, f["annotated"]]
@@ -168,6 +266,8 @@ class Universe:
             bases.append("pydantic.BaseModel")
         if generic:
             bases.append("Generic[T]")
+        elif c.get("tvars"):
+            bases.append("Generic[" + ", ".join(f"T{i}" for i in range(c["tvars"])) + "]")
         lines.append(f"class {name}({', '.join(bases)}):" if bases else f"class {name}:")
         if kind == "pydantic":
             lines.append("    model_config = pydantic.ConfigDict(arbitrary_types_allowed=True, strict=True)")
@@ -235,7 +335,7 @@ class Universe:
                 required, default = not f.get("not_required"), None
             else:
                 required, default = f.get("default") is None, f.get("default")
-            fields.append({"id": f["id"], "ty": f["ty"], "required": required, "default": default})
+            fields.append({"id": f["id"], **self._shape_ty(c, f), "required": required, "default": default})
             if kind in ("typeddict", "pydantic") or (kind in ("dataclass", "attrs") and f.get("kw_only")):
                 pk = "kw_only"
             else:
@@ -243,7 +343,7 @@ class Universe:
             params.append({"field": f["id"], "name": self.param_name(c, f), "kind": pk})
         if kind in ("dataclass", "attrs"):     # keyword-only parameters are moved behind the others
             params = [p for p in params if p["kind"] != "kw_only"] + [p for p in params if p["kind"] == "kw_only"]
-        return {"ty": model_ty(c["id"]), "cls": c["id"], "fields": fields, "params": params}
+        return {"ty": model_ty(c["id"]), "cls": c["id"], "fields": fields, "params": params, **self._shape_generic(c)}
 
     def out_shape(self, c):
         kind = c["kind"]
@@ -255,8 +355,20 @@ class Universe:
                 acc = {"a": "item", "k": f["id"]}
             else:
                 acc = {"a": "attr", "n": f["id"]}
-            fields.append({"id": f["id"], "ty": f["ty"], "acc": acc})
-        return {"ty": model_ty(c["id"]), "fields": fields}
+            fields.append({"id": f["id"], **self._shape_ty(c, f), "acc": acc})
+        return {"ty": model_ty(c["id"]), "fields": fields, **self._shape_generic(c)}
+
+    @staticmethod
+    def _shape_ty(c, f):
+        """a field declared through type variables is handed to the model as its hint: the model resolves it
+        itself (AdaptixModel/Conv/Generic.lean), the type the harness computed stays on this side"""
+        if c.get("tvars") and f.get("hint") is not None:
+            return {"hint": f["hint"]}
+        return {"ty": f["ty"]}
+
+    @staticmethod
+    def _shape_generic(c):
+        return {"tvars": c["tvars"], "targs": c["targs"]} if c.get("tvars") else {}
 
     def world_json(self):
         return {
@@ -264,6 +376,8 @@ class Universe:
             "in": [self.in_shape(c) for c in self.logical.values()],
             "any": LEAF_ANY,
             "sub": [[leaf(a), leaf(b)] for a, b in SUBCLASS_PAIRS],
+            # the one instantiation of every generic class of the case: [class, arguments, type naming it]
+            "insts": [[c["id"], c["targs"], model_ty(c["id"])] for c in self.logical.values() if c.get("tvars")],
         }
 
     # -- values ------------------------------------------------------------
